@@ -31,6 +31,7 @@ func TestWorker(t *testing.T) {
 		"C13/epic":     runEPIC,
 		"C15/bfdlinks": runBFDLinks,
 		"C21/spao":     runSPAO,
+		"C44/dispatcher": runDispatcher,
 		"C17/config":   runConfig,
 		"C22/paths":    runPaths,
 		"C28/combine":  runCombine,
